@@ -59,6 +59,7 @@ type ConvCase struct {
 	Script Script
 	Phases [][]Raw // phase 0 plaintext (or the only phase under implicit TLS); later phases after STARTTLS
 	Extra  []*Sx   // expectations stated by the generator (focus, expect-codes, ...), passed through to the oracle
+	PanicAt map[string]int // backend callbacks that panic (such cases carry (nomodel): judged by the oracles only)
 }
 
 type logWriter struct {
@@ -94,7 +95,7 @@ var stuckConversations int
 // RunConv runs the real server on the scripted connection and returns the case
 // line (inputs as actually delivered + observed behaviour).
 func RunConv(c ConvCase) *Sx {
-	be := &RecBackend{script: cloneScript(c.Script), LMTPSess: c.Cfg.LMTPSession}
+	be := &RecBackend{script: cloneScript(c.Script), LMTPSess: c.Cfg.LMTPSession, PanicAt: c.PanicAt}
 	if c.Cfg.HasAuth {
 		be.AuthMechs = c.Cfg.Auth
 		if be.AuthMechs == nil {
